@@ -1,42 +1,42 @@
 add(
     "C17",
     "property-based testing: generated + exhaustively enumerated enter/exit/raise forests against an explicit stack model (Hypothesis, shrinking)",
-    "Bounded exploration: every forest of <=2 (quick) / <=3 (thorough) interpretation blocks over 9 interpretations with an exception injected at every position is enumerated, plus thousands of Hypothesis-generated deeper forests; after every step the active interpretation (identity), the stack depth, the sub-interpretation chain and the behaviour of four probe terms are compared with an explicit list model.",
+    "Bounded exploration: every forest of <=2 (quick) / <=3 (thorough) interpretation blocks over 9 interpretations with an exception injected at every position is enumerated, plus thousands of Hypothesis-generated deeper forests; after every step the active interpretation (identity), the stack depth, the sub-interpretation chain and the behaviour of four probe terms are compared with an explicit list model. Also: context managers created earlier than they are entered, and tapes / partial interpretations entered again under another enclosing interpretation.",
     "Trusts CPython, Hypothesis, and the single-level behaviour of each base interpretation measured at depth 1; sequential process only.",
     "DESIGN.md section 3 C17",
 )
 add(
     "C01",
     "property-based testing: typed AST generators (Hypothesis + seed-expanded) vs. an independent point-wise reference evaluator, exhaustive over each case's integer input space; AST shrinker",
-    "Bounded exploration: thousands (quick) to >100k (thorough) generated expressions over every constructor named in the statement; each is built eagerly through the public API and compared with a ~400-line numpy/Python reference evaluator at EVERY assignment of its integer inputs (and 3 grid points per real input); completion is additionally demanded on the core fragment.",
+    "Bounded exploration: thousands (quick) to >100k (thorough) generated expressions over every constructor named in the statement; each is built eagerly through the public API and compared with a ~400-line numpy/Python reference evaluator at EVERY assignment of its integer inputs (and 3 grid points per real input); completion is additionally demanded on the core fragment. Also: counting reductions of comparison masks, several absent reduced variables, shared leaves (terms are DAGs), Constant wrappers and point masses (Delta) with a reference semantics.",
     "Trusts CPython, numpy, Hypothesis and vf/lang.py (reference evaluator). Tolerance 1e-8+1e-6 rel. Cases whose oracle leaves an op's numeric domain are discarded and counted.",
     "DESIGN.md section 3 C01",
 )
 add(
     "C04",
     "property-based testing: generated (f, substitution map[, second map]) cases with deliberately interacting names vs. the reference evaluator's simultaneous substitution; exhaustive over each case's integer input space",
-    "Bounded exploration: f from the generated term language built under eager/lazy/reflect/normalize, substitution maps with numbers, index tensors (over f's own and key names), variables (fresh, colliding, swapped, diagonal), slices and expressions, applied under eager/lazy/reflect, also chained; value and inputs compared with the oracle at every point of the finite input space.",
+    "Bounded exploration: f from the generated term language built under eager/lazy/reflect/normalize, substitution maps with numbers, index tensors (over f's own and key names), variables (fresh, colliding, swapped, diagonal), slices and expressions, applied under eager/lazy/reflect, also chained; value and inputs compared with the oracle at every point of the finite input space. Also: Slice composed with Slice, Gaussians substituted with affine-looking non-affine values, point masses and Constants as targets.",
     "Trusts vf/lang.py (oracle evaluates all values in the caller's environment first). Gaussian/Delta targets are covered by C12/C14 instead.",
     "DESIGN.md section 3 C04",
 )
 add(
     "C05",
     "property-based testing: generated nestings of binder constructors with adversarially coinciding names vs. a lexically scoped reference evaluator, plus the metamorphic relation 'rename every binder to a fresh name'",
-    "Bounded exploration: expressions nesting Reduce/Lambda/Independent/Cat/Integrate/Approximate/Subs binders over a 2-3 name pool, built under eager/lazy/reflect/normalize and reinterpreted; inputs must equal the lexical free names (no __BOUND name ever), values must equal the lexically scoped oracle everywhere, and renaming all binders must change nothing.",
+    "Bounded exploration: expressions nesting Reduce/Lambda/Independent/Cat/Integrate/Approximate/Subs binders over a 2-3 name pool, built under eager/lazy/reflect/normalize and reinterpreted; inputs must equal the lexical free names (no __BOUND name ever), values must equal the lexically scoped oracle everywhere, and renaming all binders must change nothing. Also: histories (a live binder, 0-400 unrelated binders, a capturing substitution, a re-used binder name; uniqueness of the fresh-name supply) and funsor.factory terms whose fresh name re-uses a bound name.",
     "Trusts vf/lang.py (environment-extension semantics) and its alpha-renaming helper (cross-checked: oracle(renamed)==oracle(original) on every case through the value comparison). One open known finding (lazy Approximate) is excluded by construction.",
     "DESIGN.md section 3 C05",
 )
 add(
     "C03",
     "property-based testing: generated ASTs x nests of interpretation contexts x reinterpreters (differential against eager and the reference evaluator), shards run under FUNSOR_USE_TCO/FUNSOR_TYPECHECK in {0,1}",
-    "Bounded exploration: every generated expression is built under a nest of 1-3 contexts from {lazy, reflect, normalize, memoize, sequential, moment_matching} (all 258 orders sampled) and reinterpreted with reinterpret/recursion_reinterpret/stack_reinterpret; the result must have the eager output domain, inputs among the expression's, and the oracle value at every point; memoize cache hits are re-derived.",
+    "Bounded exploration: every generated expression is built under a nest of 1-3 contexts from {lazy, reflect, normalize, memoize, sequential, moment_matching} (all 258 orders sampled) and reinterpreted with reinterpret/recursion_reinterpret/stack_reinterpret; the result must have the eager output domain, inputs among the expression's, and the oracle value at every point; memoize cache hits are re-derived. Also: a deterministic shared-cache history (operands created, used once and dropped between memoize blocks) and chain templates with a duplicated Stack part.",
     "Trusts vf/lang.py; FUNSOR_USE_TCO/FUNSOR_TYPECHECK are set per shard because funsor reads them at import.",
     "DESIGN.md section 3 C03",
 )
 add(
     "C06",
     "enumeration of the op catalogue (op x operand domains x parameters, ~7600 entries; exhaustive in the thorough tier) + property-based testing of generated ASTs against the framework's typing rule",
-    "G1 runs every op that has a find_domain rule on arrays of each operand domain (rank 0-3, every axis/keepdims/index/offset/shape/equation) and compares shape, dtype class and integer range with find_domain. G2 checks on generated expressions that the reflect-built term declares exactly the predicted inputs/output, that eager evaluation keeps the output and a subset of inputs, and that tensor data has exactly the declared shape and range.",
+    "G1 runs every op that has a find_domain rule on arrays of each operand domain (rank 0-3, every axis/keepdims/index/offset/shape/equation) and compares shape, dtype class and integer range with find_domain. G2 checks on generated expressions that the reflect-built term declares exactly the predicted inputs/output, that eager evaluation keeps the output and a subset of inputs, and that tensor data has exactly the declared shape and range. G3: catalogue of eager rules on Tensor/Number operands of every dtype class - the eager result must declare what the lazy term declares and hold data of that kind and range.",
     "Trusts numpy as the reference for each op's result shape and the framework typing rule (vf/lang.py typeof). One open known finding (integer floordiv bound).",
     "DESIGN.md section 3 C06",
 )
@@ -50,28 +50,28 @@ add(
 add(
     "C09",
     "property-based testing: random plated factor graphs (plus structural templates) x algorithms vs. a brute-force oracle that enumerates the fully unrolled joint",
-    "Bounded exploration over factor graphs with <=5 factors, <=4 variables and <=3 plates (arbitrary, also crossing, plate sets), any eliminate set, integer plate scales, optional real parameter and six semirings; sum_product, partial_sum_product in one and two calls (valid splits by closure), modified/dynamic variants with empty steps, plated einsum and naive_plated_einsum are compared entry-wise with the unrolled joint; pedantic graphs must raise ValueError.",
+    "Bounded exploration over factor graphs with <=5 factors, <=4 variables and <=3 plates (arbitrary, also crossing, plate sets), any eliminate set, integer plate scales, optional real parameter and six semirings; sum_product, partial_sum_product in one and two calls (valid splits by closure), modified/dynamic variants with empty steps, plated einsum and naive_plated_einsum are compared entry-wise with the unrolled joint; pedantic graphs must raise ValueError. Also: late-bridge factor graphs (a factor joining three components), operands spelled plate-before-variable.",
     "Trusts the 50-line itertools/numpy brute force (capped at 1e5 joint assignments); integer scales only (plate replication); a raised ValueError/NotImplementedError is a decline.",
     "DESIGN.md section 3 C09",
 )
 add(
     "C12",
     "property-based testing: generated Gaussians (all ranks, every interleaving of batch and real inputs) and chains of pointwise operations vs. the dense quadratic form evaluated point-wise",
-    "Bounded exploration over Gaussians with 1-3 real inputs (total dim <=5), 0-2 batch inputs, rank-deficient/square/over-complete factors and chains of up to 3 operations (add, subtract, substitution of numbers/batched tensors/affine expressions, integer indexing/slicing/renaming, align, Cat, compress_gaussians, lazy+reinterpret) plus all 9 constructor parametrisations; the result is compared with -1/2||xS-w||^2 at every batch index and 3 real points.",
+    "Bounded exploration over Gaussians with 1-3 real inputs (total dim <=5), 0-2 batch inputs, rank-deficient/square/over-complete factors and chains of up to 3 operations (add, subtract, substitution of numbers/batched tensors/affine expressions, integer indexing/slicing/renaming, align, Cat, compress_gaussians, lazy+reinterpret) plus all 9 constructor parametrisations; the result is compared with -1/2||xS-w||^2 at every batch index and 3 real points. Also: substituted values that only look affine (x + h(x), products of factors in one variable, non-additive reductions).",
     "Trusts numpy and the point-wise reference evaluator; parameters are well-conditioned by construction.",
     "DESIGN.md section 3 C12",
 )
 add(
     "C13",
     "property-based testing: generated Gaussians/mixtures x integral operations vs. closed forms (Schur complement, log-det, Gaussian expectation) computed on dense coefficients probed from the reference evaluator",
-    "Bounded exploration over full-rank/over-complete Gaussians, sums and Tensor+Gaussian mixtures in every input interleaving: marginals over any subset, log-normalisers, plate sums, mixture reductions, two-step marginalisation, Integrate against variables/quadratics/Gaussians, moment matching (mass, mean, covariance) and rank-deficient blocks (must not yield a finite number). Completion is demanded on full-rank inputs.",
+    "Bounded exploration over full-rank/over-complete Gaussians, sums and Tensor+Gaussian mixtures in every input interleaving: marginals over any subset, log-normalisers, plate sums, mixture reductions, two-step marginalisation, Integrate against variables/quadratics/Gaussians, moment matching (mass, mean, covariance) and rank-deficient blocks (must not yield a finite number). Completion is demanded on full-rank inputs. Also: integrated blocks of exactly rank / rank+1 dimensions, signed and transformed Gaussian integrands; coincidental singularity is separated from structural deficiency by jittering the factors.",
     "Trusts numpy.linalg on <=5x5 well-conditioned matrices and exact finite differences of quadratics (verified at an extra point per probe).",
     "DESIGN.md section 3 C13",
 )
 add(
     "C14",
     "property-based testing: generated Deltas and sampling scenarios with a seeded RNG vs. explicit indicator semantics, exact mass identities and dense Gaussian moments",
-    "Bounded exploration of (1) Delta evaluation by substitution at every candidate value, reduction and integration against the point value (unit mass); (2) Tensor.sample over every subset of inputs with -inf entries and 0-2 particle inputs: type, support, exact mass for every batch element and particle, determinism; (3) Gaussian.sample: mass vs the closed-form marginal, determinism, and reparametrised samples recovered as an affine map of the noise with exactly the Gaussian's mean and covariance.",
+    "Bounded exploration of (1) Delta evaluation by substitution at every candidate value, reduction and integration against the point value (unit mass); (2) Tensor.sample over every subset of inputs with -inf entries and 0-2 particle inputs: type, support, exact mass for every batch element and particle, determinism; (3) Gaussian.sample: mass vs the closed-form marginal, determinism, and reparametrised samples recovered as an affine map of the noise with exactly the Gaussian's mean and covariance. Also: point masses inside the generated term language (several Deltas, one point a function of another's variable, reductions / Integrate over some of a Delta's variables) against the reference semantics of vf/lang.py.",
     "Trusts numpy's seeded global RNG as the only randomness of the numpy backend, the C13 dense closed forms, and Delta.terms for locating sample points.",
     "DESIGN.md section 3 C14",
 )
@@ -85,7 +85,7 @@ add(
 add(
     "C11",
     "property-based testing: generated sum-product expressions (ground roots) vs. derivatives of the reference evaluator's root with respect to every leaf entry (exact multilinear differences; 5-point stencil under plates)",
-    "Bounded exploration over expressions with 1-6 distinct leaf tensors over 4 names of sizes 1-3, any reduced subset, optional plates, leaves wrapped in renamings / Slices / injective index substitutions / Cat, with and without apply_optimizer, for (add,mul) and (logaddexp,add): the forward value and the adjoint of every leaf at every entry are compared with the oracle. Three open known findings are excluded by construction.",
+    "Bounded exploration over expressions with 1-6 distinct leaf tensors over 4 names of sizes 1-3, any reduced subset, optional plates, leaves wrapped in renamings / Slices / injective index substitutions / Cat, with and without apply_optimizer, for (add,mul) and (logaddexp,add): the forward value and the adjoint of every leaf at every entry are compared with the oracle. Three open known findings are excluded by construction. Also: negative leaf entries (plate adjoints divide by the leaf).",
     "Trusts vf/lang.py; each leaf occurs once so the root is multilinear in its entries; roots are ground (all free inputs reduced) so 'the derivative of the root' is unambiguous.",
     "DESIGN.md section 3 C11",
 )
@@ -99,42 +99,42 @@ add(
 add(
     "C18",
     "property-based testing: generated expressions of the compiler fragment x bindings; differential between compile_funsor, pickled program, exec of the printed source, trace_function and the reference evaluator",
-    "Bounded exploration of 1-3 expressions (unary, non-commutative binary, matmul, getitem, output reductions with axis/keepdims, reshape, getslice, shared subexpressions, constants, real and integer inputs) built under reflect/lazy/normalize: the compiled program, its pickle round trip, the executed as_code() source and a traced ops function must all equal the oracle; missing/unexpected kwargs must raise.",
+    "Bounded exploration of 1-3 expressions (unary, non-commutative binary, matmul, getitem, output reductions with axis/keepdims, reshape, getslice, shared subexpressions, constants, real and integer inputs) built under reflect/lazy/normalize: the compiled program, its pickle round trip, the executed as_code() source and a traced ops function must all equal the oracle; missing/unexpected kwargs must raise. Also: traced functions over an integer and a float array with int and float literals of equal value (dtype compared with the function itself).",
     "Trusts vf/lang.py; compiler NotImplementedError (e.g. python slices, reductions in Contraction) and tracer errors are declines.",
     "DESIGN.md section 3 C18",
 )
 add(
     "C19",
     "property-based testing: generated arrays/name maps and funsors vs. explicit numpy indexing (round trip), plus metamorphic relations for align and materialize",
-    "Bounded exploration: to_funsor with every placement of names over rank 0-5 arrays (real and bounded-integer, event rank 0-2) compared element-wise at every named point, to_data round trip up to size-1 batch dims and independent of the funsor's input order; align with permutations on Tensors (data == transposed array), lazy terms, Contractions and Gaussians (value at every point); Tensor.materialize of lazy index expressions against the reference evaluator.",
+    "Bounded exploration: to_funsor with every placement of names over rank 0-5 arrays (real and bounded-integer, event rank 0-2) compared element-wise at every named point, to_data round trip up to size-1 batch dims and independent of the funsor's input order; align with permutations on Tensors (data == transposed array), lazy terms, Contractions and Gaussians (value at every point); Tensor.materialize of lazy index expressions against the reference evaluator. Also: Gaussians with up to four equal-sized integer inputs (permutations that are not their own inverse), one prototype materialising two expressions whose inputs re-use names with other sizes.",
     "Trusts numpy indexing/transposition and vf/lang.py for lazy terms; align is exercised with permutations of all names on non-Tensor terms (as documented).",
     "DESIGN.md section 3 C19",
 )
 add(
     "C16",
     "exhaustive enumeration over a pool of ~150 parametric types (order axioms, differential against an independent structural model of the type language, instance membership) + enumerated/synthesised dispatch queries for every registered signature + generated register/dispatch histories on fresh registries",
-    "G2 checks reflexivity, transitivity (all triples in the thorough tier), agreement with a 60-line structural model on all pairs, deep_isinstance vs the relation, and membership of every sample value in each one-step generalisation of its deep type. G1 checks for every dispatcher of the 8 dispatched interpretations and adjoint_ops that the chosen rule belongs to a matching pattern not strictly refined by a different rule's matching pattern, and that it is stable under cache clearing, reorder(), shuffled registration order and register/dispatch histories through origin and subscripted keys.",
+    "G2 checks reflexivity, transitivity (all triples in the thorough tier), agreement with a 60-line structural model on all pairs, deep_isinstance vs the relation, and membership of every sample value in each one-step generalisation of its deep type. G1 checks for every dispatcher of the 8 dispatched interpretations and adjoint_ops that the chosen rule belongs to a matching pattern not strictly refined by a different rule's matching pattern, and that it is stable under cache clearing, reorder(), shuffled registration order and register/dispatch histories through origin and subscripted keys. Also: generated parametrisations (object / Any / general / specific in every parameter position) and variadic dispatch histories on a fresh PartialDispatcher judged by accepted-argument sets.",
     "Trusts the structural model (vf/props/c16.py model_sub) and multipledispatch's own ordering only through its observable choices.",
     "DESIGN.md section 3 C16",
 )
 add(
     "C07",
     "model-based (stateful) property testing: generated construct/drop/gc/pickle/copy/reinterpret/reallocate histories over a pool of term, domain and op recipes against a reference model of structural keys with arrays compared by identity",
-    "Bounded exploration of 6-24 step histories: after every step two live reflect-level handles must be identical iff their structural keys are equal, constructed objects carry exactly the requested arguments (array identity, op parameters such as alternative slice spellings), pickle/copy/reinterpret under reflect return the identical object, and every term (and every Variable inside a frozenset argument) that no live handle reaches must be dead after gc.collect().",
+    "Bounded exploration of 6-24 step histories: after every step two live reflect-level handles must be identical iff their structural keys are equal, constructed objects carry exactly the requested arguments (array identity, op parameters such as alternative slice spellings), pickle/copy/reinterpret under reflect return the identical object, and every term (and every Variable inside a frozenset argument) that no live handle reaches must be dead after gc.collect(). Also: rejected malformed domain requests that compare equal to valid ones; domains validated field by field.",
     "Relies on CPython reference counting + gc.collect(); identity is demanded only for constructions that do not evaluate; domains, ops and parametrised types are checked for identity, not reclamation.",
     "DESIGN.md section 3 C07",
 )
 add(
     "C02",
     "property-based testing with a run-time rewrite recorder: every rule firing observed while generated programs run under the exact interpretations is checked against the reference evaluator (reflected left-hand side vs replacement), with rule-function coverage reported",
-    "Bounded exploration: a recorder wrapped around the dispatch attribute of the eight dispatched interpretations logs each (rule, class, arguments, result); the reflected term cls(*args) and the replacement are converted to the AST language and compared on the whole integer input space x real points (closed forms for Gaussian integrals), together with inputs(replacement) <= inputs(original). The evidence lists fired and never-fired rule functions.",
+    "Bounded exploration: a recorder wrapped around the dispatch attribute of the eight dispatched interpretations logs each (rule, class, arguments, result); the reflected term cls(*args) and the replacement are converted to the AST language and compared on the whole integer input space x real points (closed forms for Gaussian integrals), together with inputs(replacement) <= inputs(original). The evidence lists fired and never-fired rule functions. Also: every firing is re-resolved without the dispatch cache (a rule applied outside its pattern is a violation), pairs of look-alike programs run in one process, Constant / Delta / shaped / signed-Gaussian-integrand families, and a metamorphic ground-evaluation fallback for sides without a reference meaning.",
     "Trusts vf/lang.py and the term->AST conversion (cross-checked on every program); a firing's result includes downstream interpretation of the rewritten term; constructs without a reference meaning here are undecided (counted).",
     "DESIGN.md section 3 C02",
 )
 add(
     "C20",
     "property-based testing with a mutation monitor: generated programs and follow-up operations run on leaf arrays produced by a hashing factory (read-only in half of the cases); held funsors are snapshotted and re-checked",
-    "Bounded exploration: the mixed program driver plus 2-5 follow-up operations (align, reductions, substitution, arithmetic, to_data, sample, compile, adjoint, optimizer, indexing, rename, slice, pickle) per case; afterwards every leaf array must be bit-identical (sha1, shape, dtype, strides), every held funsor must have unchanged inputs/output/array contents, and no read-only write error may surface from funsor.",
+    "Bounded exploration: the mixed program driver plus 2-5 follow-up operations (align, reductions, substitution, arithmetic, to_data, sample, compile, adjoint, optimizer, indexing, rename, slice, pickle) per case; afterwards every leaf array must be bit-identical (sha1, shape, dtype, strides), every held funsor must have unchanged inputs/output/array contents, and no read-only write error may surface from funsor. Also: bijective Scatter and the block-assembly helpers as follow-ups on monitored arrays.",
     "Trusts numpy's writeable flag and sha1 of array bytes; covers the operations the driver performs (numpy backend).",
     "DESIGN.md section 3 C20",
 )
